@@ -53,14 +53,14 @@ theorem c01_inv (bs nb : Nat) (hbs : 0 < bs) (ops : List (Op β))
 /-! Non-vacuity: a concrete history with an unaligned write across three blocks, a user snapshot,
     an overwrite, punching on, a reopen with preload — it is admissible, and the read-back
     theorem's conclusion can be evaluated. -/
-def demoOps : List (Op Nat) :=
+def demoOps01 : List (Op Nat) :=
   [.write 3 18 (fun u => 100 + u), .snapshot true, .setPunch true, .write 0 8 (fun u => 200 + u),
    .snapshot false, .write 4 9 (fun u => 300 + u), .applyHole 0, .reopen true, .read 0 32]
 
-example : AdmAll (DD.init 8 4 : DD Nat) demoOps := by
-  simp only [demoOps, AdmAll, Adm]; decide
+example : AdmAll (DD.init 8 4 : DD Nat) demoOps01 := by
+  simp only [demoOps01, AdmAll, Adm]; decide
 
-example : ((List.range 14).map fun u => (runWith (DD.init 8 4 : DD Nat) Spec.init demoOps).1.readUnit u)
+example : ((List.range 14).map fun u => (runWith (DD.init 8 4 : DD Nat) Spec.init demoOps01).1.readUnit u)
     = [200, 201, 202, 203, 304, 305, 306, 307, 308, 309, 310, 311, 312, 113] := by decide
 
 end Jiva.Properties
